@@ -22,7 +22,7 @@ ID = "C01"
 LEVEL = "exploration"
 SEGMENT_TIMEOUT = 200
 TIERS = {
-    "quick": dict(plans=81, budget_s=75, det_plans=2, advs=2),
+    "quick": dict(plans=144, budget_s=90, det_plans=2, advs=2),
     "thorough": dict(plans=8000, budget_s=1200, det_plans=8, advs=5, always_selftest=True),
 }
 READS = [(50, 2), (100, 5), (100, 4), (150, 5), (250, 10)]
@@ -50,7 +50,7 @@ def gen_plan(rng, tier, i, seed):
         o.update(cluster=True, n_variants=8, kinds=["snp", "snp", "ins", "ins", "del", "mnp"])
     elif scen == "ambiguous_mnp":
         L, step = rng.choice([(100, 5), (150, 5), (250, 10)])
-        o.update(ambiguous=True, kinds=["mnp", "mnp", "snp", "ins", "del"], gene_len=420)
+        o.update(ambiguous=rng.choice([True, "mnp", "mnp"]), kinds=["mnp", "mnp", "snp", "ins", "del"], gene_len=420)
     elif scen == "edge_variant":
         o.update(edge_variant=rng.choice(["last", "first", "both"]))
     elif scen == "repeat_insertions":
